@@ -333,7 +333,7 @@ def inlined_body(res, fn, depth: int = 0) -> List[ast.stmt]:
     return out
 
 
-def inline_pure_calls(res, fn, e: ast.expr, depth: int = 0) -> ast.expr:
+def inline_pure_calls(res, fn, e: ast.expr, depth: int = 0, guards: bool = False) -> ast.expr:
     """A copy of *e* in which calls to package helpers outside the pinned inventory that consist of one return
     statement are replaced by the returned expression (parameters substituted by the argument expressions)."""
     import copy
@@ -355,6 +355,10 @@ def inline_pure_calls(res, fn, e: ast.expr, depth: int = 0) -> ast.expr:
             if g.is_lambda or g.is_async or is_known(g, res.prog) or g is fn:
                 return n
             body = [s_ for s_ in g.node.body if not (isinstance(s_, ast.Expr) and isinstance(s_.value, ast.Constant))]
+            if guards:
+                # leading `if <test>: raise ...` statements only narrow the arguments for which the helper returns
+                while len(body) > 1 and isinstance(body[0], ast.If) and not body[0].orelse and len(body[0].body) == 1 and isinstance(body[0].body[0], ast.Raise):
+                    body = body[1:]
             if len(body) != 1 or not isinstance(body[0], ast.Return) or body[0].value is None:
                 return n
             env = {}
@@ -362,7 +366,7 @@ def inline_pure_calls(res, fn, e: ast.expr, depth: int = 0) -> ast.expr:
                 a = arg_for(n, g, pn)
                 if a is not None:
                     env[pn] = a
-            return inline_pure_calls(res, g, subst(body[0].value, env), depth + 1)
+            return inline_pure_calls(res, g, subst(body[0].value, env), depth + 1, guards)
     return ast.fix_missing_locations(T().visit(copy.deepcopy(e)))
 
 
@@ -406,8 +410,61 @@ def seeks_through_get_offset(fn) -> bool:
     param = fn.params[-1]
     for n in walk_no_lambda(fn.node):
         if isinstance(n, ast.Call) and (call_chain(n) or ())[-1:] == ("seek",) and len(n.args) == 1 and (call_chain(n) or ())[:2] == ("self", "_bytes"):
-            for a in alternatives(n.args[0], local):
+            cands = list(alternatives(n.args[0], local))
+            # a local assigned in both arms of an if (position = address / position = command.get_offset(address))
+            for _ in range(3):
+                more = []
+                for a in cands:
+                    if isinstance(a, ast.Name) and a.id not in local and a.id != param:
+                        for st in ast.walk(fn.node):
+                            if isinstance(st, ast.Assign) and len(st.targets) == 1 and isinstance(st.targets[0], ast.Name) and st.targets[0].id == a.id:
+                                more += list(alternatives(st.value, local))
+                cands += [m for m in more if not any(m is c for c in cands)]
+            for a in cands:
                 if isinstance(a, ast.Call) and (call_chain(a) or ())[-1:] == ("get_offset",) and len(a.args) == 1 \
                         and isinstance(a.args[0], ast.Name) and a.args[0].id == param and "command" in (call_chain(a) or ()):
                     return True
     return False
+
+
+def reaching_assignment(fn_node: ast.AST, name: str, use: ast.AST) -> Optional[ast.expr]:
+    """The value of the one assignment ``name = <value>`` that reaches *use* on every path, found lexically: the nearest
+    preceding top-level assignment in the block holding the use or in an enclosing block, with no compound statement in
+    between that may assign the name.  None when there is no such single assignment (parameters, loops, joins)."""
+    def holds(st):
+        return any(x is use for x in ast.walk(st))
+
+    def assigns(st):
+        return any(isinstance(x, ast.Name) and isinstance(x.ctx, (ast.Store, ast.Del)) and x.id == name for x in ast.walk(st)) or \
+            any(isinstance(x, ast.ExceptHandler) and x.name == name for x in ast.walk(st))
+
+    def search(block):
+        for i, st in enumerate(block):
+            if not holds(st):
+                continue
+            inner = None
+            for fld in ("body", "orelse", "finalbody"):
+                sub = getattr(st, fld, None)
+                if isinstance(sub, list) and any(holds(x) for x in sub if isinstance(x, ast.AST)):
+                    if isinstance(st, (ast.For, ast.AsyncFor, ast.While)) and assigns(st):
+                        return "unknown"      # a later iteration may have assigned it
+                    inner = search(sub)
+            for h in getattr(st, "handlers", []) or []:
+                if any(holds(x) for x in h.body):
+                    if h.name == name or any(assigns(x) for x in st.body):
+                        return "unknown"      # the try body may have assigned it before raising
+                    inner = search(h.body)
+            if inner is not None:
+                return inner
+            # not found deeper (or the use is in this very statement): look back in this block
+            for prev in reversed(block[:i]):
+                if isinstance(prev, ast.Assign) and len(prev.targets) == 1 and isinstance(prev.targets[0], ast.Name) and prev.targets[0].id == name:
+                    return prev.value
+                if isinstance(prev, ast.AnnAssign) and isinstance(prev.target, ast.Name) and prev.target.id == name and prev.value is not None:
+                    return prev.value
+                if assigns(prev):
+                    return "unknown"
+            return None
+        return None
+    r = search(list(getattr(fn_node, "body", [])))
+    return None if isinstance(r, str) else r
